@@ -6,6 +6,8 @@ package main
 // Arr (Int -> Int maps for byte regions of unknown length), BV (bit-vectors, bv mode only).
 
 import (
+	"crypto/sha256"
+	"encoding/hex"
 	"fmt"
 	"math/big"
 	"sort"
@@ -105,7 +107,17 @@ func (t *Term) mkKey() string {
 		sb.WriteString(a.Key())
 	}
 	sb.WriteString(")")
-	return sb.String()
+	return shortKey(sb.String())
+}
+
+// shortKey keeps keys bounded: long structural keys are replaced by a digest (terms are DAGs; the
+// textual key of a DAG can be exponentially long).
+func shortKey(s string) string {
+	if len(s) <= 96 {
+		return s
+	}
+	h := sha256.Sum256([]byte(s))
+	return "#" + hex.EncodeToString(h[:12]) + "~" + s[:24]
 }
 
 func (t *Term) String() string { return t.Key() }
